@@ -503,6 +503,7 @@ func (e *engine) Run(src *vs.Source, tier string, idx int64) (res *simkit.RunRes
 	}
 	res.Stats["pools_with_revision_operand"] += int64(p.revisions)
 	res.Stats["pools_with_large_operand"] += int64(p.large)
+	res.Stats["pools_with_concurrent_edge_pencil"] += int64(p.pencils)
 	if sc.focus {
 		res.Stats["focus_mode_runs"]++
 	}
@@ -525,147 +526,175 @@ func (e *engine) Run(src *vs.Source, tier string, idx int64) (res *simkit.RunRes
 			res.Stats["epochs_with_published_results"]++
 			sc.genScripts(src, fmt.Sprintf("e%d", epoch), false)
 		}
-		// ---- R1: every call alone, canonical order, single task
 		ref := make([][]opResult, sc.nt)
 		refSteps := make([][]int64, sc.nt)
 		skip := make([][]bool, sc.nt)
-		for t, script := range sc.scripts {
-			skip[t] = make([]bool, len(script))
-			refSteps[t] = make([]int64, len(script))
-			for i := range script {
-				op := &script[i]
-				var r opResult
-				markOp(op)
-				steps, _, pv, stack := vs.Solo(opBudget, func() { r = execOp(op, p, op.Scribble) })
-				res.Stats["logical_steps"] += steps
-				if pv != nil {
-					res.Violations = []simkit.Violation{{Class: "machinery", Sig: "machinery/execOp", Detail: fmt.Sprintf("%v\n%s", pv, stack)}}
-					return res
-				}
-				ref[t] = append(ref[t], r)
-				refSteps[t][i] = steps
-				name := catalogue[op.Entry].name
-				if r.Fault != "" {
-					fail("frozen-store", name, frameOf(r.Fault), "library stored into a shared operand's coordinate memory (reference phase): "+opString(op)+"\n"+clipS(r.Fault, 2500))
-				}
-				if r.Budget {
-					// too heavy (or non-terminating) even alone: that is not C10's
-					// business (same behaviour every time); the call is left out.
-					skip[t][i] = true
-					res.Stats["ops_skipped_over_budget_alone"]++
-				}
-				if strings.HasPrefix(r.Digest, "NOT-RETAINED") {
-					fail("result-not-retained", name, "", opString(op)+": "+r.Digest)
-				}
-			}
-		}
-		// ---- R1': the same calls again, in reverse order, same process: "calling
-		// the same operation again with the same arguments returns a bit-identical
-		// result" must not depend on what was called in between.
-		for t := len(sc.scripts) - 1; t >= 0 && len(viols) == 0; t-- {
-			for i := len(sc.scripts[t]) - 1; i >= 0; i-- {
-				op := &sc.scripts[t][i]
-				if skip[t][i] || ref[t][i].Fault != "" {
-					continue
-				}
-				var r opResult
-				markOp(op)
-				steps, _, pv, stack := vs.Solo(opBudget, func() { r = execOp(op, p, op.Scribble) })
-				res.Stats["logical_steps"] += steps
-				res.Stats["repeat_executions"]++
-				if pv != nil {
-					res.Violations = []simkit.Violation{{Class: "machinery", Sig: "machinery/execOp", Detail: fmt.Sprintf("%v\n%s", pv, stack)}}
-					return res
-				}
-				if r.Digest != ref[t][i].Digest {
-					fail("result-differs", catalogue[op.Entry].name, "repeat", fmt.Sprintf("%s executed twice, alone, in one process (other calls in between): first\n  %s\nthen\n  %s", opString(op), clipAround(ref[t][i].Digest, r.Digest), clipAround(r.Digest, ref[t][i].Digest)))
-				}
-			}
-		}
-		if d := p.verify(); d != "" {
-			fail("operand-changed", "reference-phase", "", d)
-		}
-		if len(viols) > 0 {
-			res.Violations = viols
-			res.Sample = sc.sample(nil)
-			return res
-		}
-
-		// ---- concurrent phase
-		sim := &vs.Sim{Sched: src.Stream("sched"), MaxSwitchLog: 256}
-		if degraded() {
-			sim.Plan = vs.NewSwarmPlan(sim.Sched, [5]int{1, 0, 0, 0, 0}, 1)
-		} else if raceBuild {
-			sim.Plan = vs.NewSwarmPlan(sim.Sched, [5]int{0, 1, 0, 1, 6}, 12)
-		} else {
-			sim.Plan = vs.NewSwarmPlan(sim.Sched, [5]int{1, 6, 2, 1, 1}, 15)
-		}
-		if sim.Sched.Intn(3, "gc?") == 2 {
-			sim.GCOdds = 6
-			sim.GCMax = 3
-		}
-		logs := make([]*taskLog, sc.nt)
+		var sim *vs.Sim
+		var logs []*taskLog
 		var switchViol string
-		inflight := make([]string, sc.nt) // family of the op each task is executing ("" = none)
-		sim.OnSwitch = func(sm *vs.Sim, from *vs.Task) {
-			if sm.NSwitch <= 48 || sm.NSwitch%16 == 0 {
-				if switchViol == "" {
-					if d := p.verify(); d != "" {
-						site, _ := 0, 0
-						if n := len(sm.Switches); n > 0 {
-							site = sm.Switches[n-1].Site
-						}
-						switchViol = fmt.Sprintf("at context switch %d (task %d yielded at %s, executing %s): %s", sm.NSwitch, from.ID, siteName(site), getInflight(inflight, from.ID), d)
-					}
-				}
-			}
-		}
-		policyMode := sim.Sched.Intn(4, "maporder/style")
-		for t := 0; t < sc.nt; t++ {
-			t := t
-			ts := src.Stream(fmt.Sprintf("t%d", t))
-			logs[t] = &taskLog{}
-			script := sc.scripts[t]
-			task := sim.NewTask(ts, func(tk *vs.Task) {
-				debug.SetPanicOnFault(true)
+		// Which comes first is drawn: with the reference pass first, budgets are
+		// calibrated per call; with the concurrent phase first, the very first
+		// use of every shared operand happens under concurrency (lazily
+		// initialised or high-water-mark state inside a shared value is
+		// otherwise warmed up by the reference pass and never seen racing).
+		concurrentFirst := src.Stream("main").Intn(2, "order/concurrent-first") == 1
+		// ---- R1: every call alone, canonical order, single task
+		runReference := func() bool {
+			for t, script := range sc.scripts {
+				skip[t] = make([]bool, len(script))
+				refSteps[t] = make([]int64, len(script))
 				for i := range script {
 					op := &script[i]
-					if skip[t][i] {
-						logs[t].res = append(logs[t].res, ref[t][i])
+					var r opResult
+					markOp(op)
+					steps, _, pv, stack := vs.Solo(opBudget, func() { r = execOp(op, p, op.Scribble) })
+					res.Stats["logical_steps"] += steps
+					if pv != nil {
+						res.Violations = []simkit.Violation{{Class: "machinery", Sig: "machinery/execOp", Detail: fmt.Sprintf("%v\n%s", pv, stack)}}
+						return false
+					}
+					ref[t] = append(ref[t], r)
+					refSteps[t][i] = steps
+					name := catalogue[op.Entry].name
+					if r.Fault != "" {
+						fail("frozen-store", name, frameOf(r.Fault), "library stored into a shared operand's coordinate memory (reference phase): "+opString(op)+"\n"+clipS(r.Fault, 2500))
+					}
+					if r.Budget {
+						// too heavy (or non-terminating) even alone: that is not C10's
+						// business (same behaviour every time); the call is left out.
+						skip[t][i] = true
+						res.Stats["ops_skipped_over_budget_alone"]++
+					}
+					if strings.HasPrefix(r.Digest, "NOT-RETAINED") {
+						fail("result-not-retained", name, "", opString(op)+": "+r.Digest)
+					}
+				}
+			}
+			// ---- R1': the same calls again, in reverse order, same process: "calling
+			// the same operation again with the same arguments returns a bit-identical
+			// result" must not depend on what was called in between.
+			for t := len(sc.scripts) - 1; t >= 0 && len(viols) == 0; t-- {
+				for i := len(sc.scripts[t]) - 1; i >= 0; i-- {
+					op := &sc.scripts[t][i]
+					if skip[t][i] || ref[t][i].Fault != "" {
 						continue
 					}
-					tk.ResetTags()
-					if degraded() {
-						tk.SetBudget(1 << 40) // a budget panic on a foreign goroutine could not be recovered
-					} else {
-						tk.SetBudget(10*refSteps[t][i] + 200000)
-					}
-					setInflight(inflight, t, catalogue[op.Entry].family+":"+catalogue[op.Entry].name)
+					var r opResult
 					markOp(op)
-					r := execOp(op, p, op.Scribble)
-					tk.SetBudget(1 << 40)
-					setInflight(inflight, t, "")
-					logs[t].res = append(logs[t].res, r)
-					vs.OpBoundary(siteOpBound)
+					steps, _, pv, stack := vs.Solo(opBudget, func() { r = execOp(op, p, op.Scribble) })
+					res.Stats["logical_steps"] += steps
+					res.Stats["repeat_executions"]++
+					if pv != nil {
+						res.Violations = []simkit.Violation{{Class: "machinery", Sig: "machinery/execOp", Detail: fmt.Sprintf("%v\n%s", pv, stack)}}
+						return false
+					}
+					if r.Digest != ref[t][i].Digest {
+						fail("result-differs", catalogue[op.Entry].name, "repeat", fmt.Sprintf("%s executed twice, alone, in one process (other calls in between): first\n  %s\nthen\n  %s", opString(op), clipAround(ref[t][i].Digest, r.Digest), clipAround(r.Digest, ref[t][i].Digest)))
+					}
 				}
-			})
-			switch policyMode {
-			case 0:
-				task.Policy = vs.MapPolicy{Canon: 1}
-			case 1:
-				task.Policy = vs.MapPolicy{Canon: 2, Rev: 1, Rot: 1, Perm: 2}
-			case 2:
-				task.Policy = vs.MapPolicy{Rev: 1, Perm: 3}
-			default:
-				task.Policy = vs.MapPolicy{Canon: 8, Rev: 1, Rot: 1, Perm: 1}
 			}
-			if degraded() {
-				task.Policy = vs.MapPolicy{} // no draws: goroutines the library starts would draw concurrently
+			if d := p.verify(); d != "" {
+				fail("operand-changed", "reference-phase", "", d)
 			}
+			return true
 		}
-		if err := sim.Run(); err != nil {
-			res.Violations = []simkit.Violation{{Class: "machinery", Sig: "machinery/task-panic", Detail: err.Error()}}
-			return res
+		// ---- concurrent phase
+		runConcurrent := func() bool {
+			sim = &vs.Sim{Sched: src.Stream("sched"), MaxSwitchLog: 256}
+			if degraded() {
+				sim.Plan = vs.NewSwarmPlan(sim.Sched, [5]int{1, 0, 0, 0, 0}, 1)
+			} else if raceBuild {
+				sim.Plan = vs.NewSwarmPlan(sim.Sched, [5]int{0, 1, 0, 1, 6}, 12)
+			} else {
+				sim.Plan = vs.NewSwarmPlan(sim.Sched, [5]int{1, 6, 2, 1, 1}, 15)
+			}
+			if sim.Sched.Intn(3, "gc?") == 2 {
+				sim.GCOdds = 6
+				sim.GCMax = 3
+			}
+			logs = make([]*taskLog, sc.nt)
+			inflight := make([]string, sc.nt) // family of the op each task is executing ("" = none)
+			sim.OnSwitch = func(sm *vs.Sim, from *vs.Task) {
+				if sm.NSwitch <= 48 || sm.NSwitch%16 == 0 {
+					if switchViol == "" {
+						if d := p.verify(); d != "" {
+							site, _ := 0, 0
+							if n := len(sm.Switches); n > 0 {
+								site = sm.Switches[n-1].Site
+							}
+							switchViol = fmt.Sprintf("at context switch %d (task %d yielded at %s, executing %s): %s", sm.NSwitch, from.ID, siteName(site), getInflight(inflight, from.ID), d)
+						}
+					}
+				}
+			}
+			policyMode := sim.Sched.Intn(4, "maporder/style")
+			for t := 0; t < sc.nt; t++ {
+				t := t
+				ts := src.Stream(fmt.Sprintf("t%d", t))
+				logs[t] = &taskLog{}
+				script := sc.scripts[t]
+				task := sim.NewTask(ts, func(tk *vs.Task) {
+					debug.SetPanicOnFault(true)
+					for i := range script {
+						op := &script[i]
+						if !concurrentFirst && skip[t][i] {
+							logs[t].res = append(logs[t].res, ref[t][i])
+							continue
+						}
+						tk.ResetTags()
+						if degraded() {
+							tk.SetBudget(1 << 40) // a budget panic on a foreign goroutine could not be recovered
+						} else if concurrentFirst {
+							tk.SetBudget(opBudget)
+						} else {
+							tk.SetBudget(10*refSteps[t][i] + 200000)
+						}
+						setInflight(inflight, t, catalogue[op.Entry].family+":"+catalogue[op.Entry].name)
+						markOp(op)
+						r := execOp(op, p, op.Scribble)
+						tk.SetBudget(1 << 40)
+						setInflight(inflight, t, "")
+						logs[t].res = append(logs[t].res, r)
+						vs.OpBoundary(siteOpBound)
+					}
+				})
+				switch policyMode {
+				case 0:
+					task.Policy = vs.MapPolicy{Canon: 1}
+				case 1:
+					task.Policy = vs.MapPolicy{Canon: 2, Rev: 1, Rot: 1, Perm: 2}
+				case 2:
+					task.Policy = vs.MapPolicy{Rev: 1, Perm: 3}
+				default:
+					task.Policy = vs.MapPolicy{Canon: 8, Rev: 1, Rot: 1, Perm: 1}
+				}
+				if degraded() {
+					task.Policy = vs.MapPolicy{} // no draws: goroutines the library starts would draw concurrently
+				}
+			}
+			if err := sim.Run(); err != nil {
+				res.Violations = []simkit.Violation{{Class: "machinery", Sig: "machinery/task-panic", Detail: err.Error()}}
+				return false
+			}
+			return true
+		}
+		if concurrentFirst {
+			res.Stats["runs_concurrent_phase_first"]++
+			if !runConcurrent() || !runReference() {
+				return res
+			}
+		} else {
+			if !runReference() {
+				return res
+			}
+			if len(viols) > 0 {
+				res.Violations = viols
+				res.Sample = sc.sample(nil)
+				return res
+			}
+			if !runConcurrent() {
+				return res
+			}
 		}
 		// ---- oracles over the recorded history
 		var noncanon, rangeCalls, untagged int64
@@ -708,6 +737,10 @@ func (e *engine) Run(src *vs.Source, tier string, idx int64) (res *simkit.RunRes
 					continue
 				}
 				if r.Budget {
+					if concurrentFirst && 10*refSteps[t][i]+200000 > opBudget {
+						res.Stats["ops_budget_inconclusive"]++
+						continue
+					}
 					fail("step-budget-exceeded", ent.name, "", fmt.Sprintf("operation took %d yield points alone but passed more than 10x that (+2e5) under simulation: %s", refSteps[t][i], opString(op)))
 					continue
 				}
